@@ -120,6 +120,21 @@ FILES_V2 = {
     "i18n.pt": F_I18N.replace("Hi <b", "Hello again <b"),
 }
 USE_CALLER = '<section metal:use-macro="t.macros[\'%s\']"><u metal:fill-slot="s">cs-${name}</u><u metal:fill-slot="x">cx-${name}</u></section>'
+FILES_V3 = {n: b.replace("A2-", "A3-").replace("fx2-", "fx3-")
+             .replace("lib2:", "lib3:").replace("n2:", "n3:")
+             .replace("<h2>${who}!</h2>", "<h3>${who}?</h3>")
+             .replace('class="v2"', 'class="v3"')
+             .replace("Hello again", "Hello once more")
+            for n, b in FILES_V2.items()}
+assert all(FILES_V3[n] != FILES_V2[n] for n in FILES_V2)
+_VMARK = re.compile(r"A[23]-|fx[23]-|lib[23]:|n[23]:|<h[23]>|[!?]</h[23]>|"
+                    r'class=\"?v[23]\"?|Hello again|Hello once more')
+
+
+def version_blind(r: list) -> list:
+    """A result with the version markers of the 2nd / 3rd file contents
+    taken out."""
+    return [_VMARK.sub("@", x) if isinstance(x, str) else x for x in r]
 
 
 def tr_stub(msgid, domain=None, mapping=None, context=None,
@@ -191,7 +206,7 @@ class C14(CheckBase):
             return self.gen_xproc(ch, tier)
         if ch.coin(0.15):
             return self.gen_compilerace(ch, tier)
-        if ch.coin(0.15):
+        if ch.coin(0.2):
             return self.gen_reloadrace(ch, tier)
         if ch.coin(0.4):
             return self.gen_lazyrace(ch, tier)
@@ -328,7 +343,12 @@ class C14(CheckBase):
                 "obs_mod": ch.pick([[1, 0], [1, 0], [2, 0], [2, 1], [3, 1]]),
                 "obs_start": ch.choose(100000) / 100000.0
                 if ch.coin(0.75) else None,
-                "reload": {"target": target, "dt": ch.pick([10, 10, -10])},
+                # (sometimes the deployer strikes again while the threads
+                # are at it: just before the n-th stat call of the phase)
+                "reload": dict({"target": target,
+                                "dt": ch.pick([10, 10, -10])},
+                               **({"during": 1 + ch.choose(5)}
+                                  if ch.coin(0.5) else {})),
                 "sched": {"kind": "pctacc",
                           "prios": ch.shuffle(list(range(1, len(tasks) + 1))),
                           "fracs": [[ch.choose(len(tasks)),
@@ -565,11 +585,17 @@ class C14(CheckBase):
             return
         for o in objs:
             self.do_op([o], ["render", 0, 77], [None])
+        self.deploy(world, sub, reload, FILES_V2)
+        if reload.get("final") == 3:
+            self.deploy(world, sub, reload, FILES_V3)
+
+    def deploy(self, world: World, sub: str, reload: dict,
+               bodies: dict) -> None:
         with world.harness():
             path = os.path.join(world.path(sub), reload["target"])
             st = os.stat(path)
             with real.open(path, "w") as f:
-                f.write(FILES_V2[reload["target"]])
+                f.write(bodies[reload["target"]])
             t = st.st_mtime_ns + reload["dt"] * 1_000_000_000
             real.utime(path, ns=(t, t))
 
@@ -604,6 +630,8 @@ class C14(CheckBase):
 
     def expected(self, world: World, shared: list, op: list,
                  reload: dict | None = None) -> list:
+        if reload:
+            reload = {k: v for k, v in reload.items() if k != "during"}
         key = canonical([shared[op[1]], op, reload])
         r = self._exp_cache.get(key)
         if r is None:
@@ -641,6 +669,12 @@ class C14(CheckBase):
         reload = case.get("reload")
         exp = {canonical(op): self.expected(world, shared, op, reload)
                for op in all_ops}
+        # ... and after a second replacement during the phase
+        during = bool(reload and reload.get("during"))
+        exp3 = {canonical(op): self.expected(world, shared, op,
+                                             dict(reload, final=3))
+                for op in all_ops} if during else {}
+        wrote_at: list = []          # scheduler step of that replacement
 
         def phase(sub: str, policy_spec: dict, record_labels=None):
             proc = world.new_proc("P" + sub)
@@ -662,7 +696,7 @@ class C14(CheckBase):
                 def yp(label, interesting=False, **kw):
                     labels.append(interesting)
                     if kw.get("access") and label.startswith("line:"):
-                        acc_labels.add(label)
+                        acc_labels[label] = acc_labels.get(label, 0) + 1
                     return orig(label, interesting, **kw)
                 sched.yield_point = yp      # type: ignore[method-assign]
             # (after a reload every object has a compiled past already)
@@ -673,7 +707,8 @@ class C14(CheckBase):
 
                 def body(ops=ops, out=out):
                     for op in ops:
-                        out.append([op, self.do_op(objs, op, box)])
+                        began = sched.step
+                        out.append([op, self.do_op(objs, op, box), began])
                         done_ops[op[1]] += 1
                 sched.spawn("t%d" % ti, body, proc)
             if case.get("observer") and sub == "run":
@@ -720,6 +755,7 @@ class C14(CheckBase):
                         return
                     budget[0] -= 1
                     op = obs_ops[si]
+                    w0 = len(wrote_at)
                     sched.atomic = True
                     try:
                         r = self.do_op(objs, op, [None])
@@ -728,15 +764,29 @@ class C14(CheckBase):
                     finally:
                         sched.atomic = False
                     stats["observer_ops"] = stats.get("observer_ops", 0) + 1
-                    if r is not None and r != obs_exp[si]:
-                        observer_bad.append((sched.step, label, op, r))
+                    # (once the second replacement has happened, a thread
+                    # that starts now gets the third version)
+                    oe = obs_exp3[si] if wrote_at else obs_exp[si]
+                    if len(wrote_at) > w0 and r == obs_exp[si]:
+                        oe = r      # (it happened during this very render)
+                    if r is not None and r != oe:
+                        observer_bad.append((sched.step, label, op, r, oe))
                 sched.on_event = observer
+            if during and sub == "run":
+                def _strike():
+                    self.deploy(world, sub, reload, FILES_V3)
+                    wrote_at.append(sched.step)
+                world.armed[proc.name] = {
+                    "kind": "midwrite", "nth": reload["during"],
+                    "kinds": {"getmtime"}, "path": reload["target"],
+                    "action": _strike}
             trace.attach(sched, coarse=case.get("coarse", False),
                          focus=case.get("focus", False))
             l0 = trace._state["lines"]
             sched.run(timeout=90)
             trace.detach()
             world.sched = None
+            world.armed.clear()
             stats["line_events"] += trace._state["lines"] - l0
             return sched, objs, results
 
@@ -745,7 +795,7 @@ class C14(CheckBase):
         dkey = short_hash([shared, case["tasks"], case.get("coarse"),
                            case.get("focus"), reload])
         labels: list | None = None
-        acc_labels: set = set()
+        acc_labels: dict = {}
         obs_start_label = None
         pol = dict(case["sched"])
         if pol.get("kind") in ("pct", "pctacc") and "fracs" in pol:
@@ -758,7 +808,7 @@ class C14(CheckBase):
                             "violations": [], "digest": log.digest(),
                             "events": log.count}
                 for out in dres:
-                    for op, r_ in out:
+                    for op, r_, _b in out:
                         if r_ != exp[canonical(op)] and r_[0] == "exc" and \
                                 r_[1] in ("TypeError", "AttributeError") and \
                                 "yield_point" in str(r_):
@@ -767,7 +817,8 @@ class C14(CheckBase):
                                     "events": log.count}
                 hot = [i + 1 for i, x in enumerate(labels) if x]
                 d = {"n": len(labels), "hot": hot,
-                     "acc_labels": sorted(acc_labels),
+                     # rare lines first: each line weighs 1/frequency
+                     "acc_labels": sorted(acc_labels.items()),
                      "acc": max([t.access_events for t in dsched.tasks]
                                 or [0]),
                      "fs": max([t.fs_events for t in dsched.tasks] or [0])}
@@ -779,8 +830,16 @@ class C14(CheckBase):
                 # run's own events are never logged
                 pass
             if case.get("obs_start") is not None and d["acc_labels"]:
-                obs_start_label = d["acc_labels"][
-                    int(case["obs_start"] * len(d["acc_labels"]))]
+                # a line drawn with weight 1/frequency: one that runs once
+                # per reload counts as much as all executions of one that
+                # runs in every render
+                tot = sum(1.0 / n for _, n in d["acc_labels"])
+                x = case["obs_start"] * tot
+                for lab, n in d["acc_labels"]:
+                    x -= 1.0 / n
+                    obs_start_label = lab
+                    if x < 0:
+                        break
             if pol["kind"] == "pctacc":
                 pts = []
                 for fr in pol["fracs"]:
@@ -803,6 +862,24 @@ class C14(CheckBase):
         # the dry phase must not leave a trace in the log/digest
         log.__init__()
 
+        def during_sig(sig: str, got, v2, v3) -> str:
+            """Known finding F14 (reload is not synchronised): with a file
+            replaced while several threads use its template, a thread that
+            read the older content can finish compiling after one that
+            read the newer content.  Exactly two failure modes are filed
+            under it - the previous version served as current, and a
+            result stitched from the two versions; anything else in such
+            a run (an exception, the first version, a deadlock, foreign
+            text) is reported as usual."""
+            if not wrote_at or not isinstance(got, list):
+                return sig
+            if got == v2 and got != v3:
+                return "stale-version-after-replace-during-use"
+            if got[0] == "ok" and got != v3 and \
+                    version_blind(got) == version_blind(v3):
+                return "mixed-versions-after-replace-during-use"
+            return sig
+
         observer_bad: list = []
         obs_exp = []
         if case.get("observer"):
@@ -815,15 +892,22 @@ class C14(CheckBase):
                     obs_exp.append(self.expected(world, shared,
                                                  ["render", si, 90 + si],
                                                  reload))
+        obs_exp3 = []
+        if case.get("observer") and during:
+            for si, sh in enumerate(shared):
+                obs_exp3.append(self.expected(
+                    world, shared, ["render", si, 90 + si],
+                    dict(reload, final=3)))
         sched, objs, results = phase("run", pol)
         owned_lists = list(self._owned)
-        for step, label, op, r in observer_bad[:1]:
+        for step, label, op, r, oe in observer_bad[:1]:
             violations.append({
-                "kind": "observer-differs", "sig": "observer-differs",
+                "kind": "observer-differs",
+                "sig": during_sig("observer-differs", r, obs_exp[op[1]], oe),
                 "detail": f"a thread that is given the processor at event "
                           f"{step} ({label}) and performs {op} without being "
                           f"pre-empted gets {str(r)[:300]}; run alone it "
-                          f"gets {str(obs_exp[op[1]])[:300]}"})
+                          f"gets {str(oe)[:300]}"})
             log.add("observer-bad", step)
         if sched.failure is not None:
             fk = type(sched.failure).__name__
@@ -839,10 +923,19 @@ class C14(CheckBase):
                 return {"harness": "task died: %r" % (t.exc,),
                         "violations": [], "digest": log.digest(),
                         "events": log.count}
+        if wrote_at:
+            stats["fired"]["midwrite"] = 1
         for ti, out in enumerate(results):
-            for op, r in out:
+            for op, r, began in out:
                 stats["ops"] += 1
                 want = exp[canonical(op)]
+                if wrote_at:
+                    # an operation that began after the second replacement
+                    # must serve the third version; one that was under way
+                    # may serve either
+                    w3 = exp3[canonical(op)]
+                    if began >= wrote_at[0] or r == w3:
+                        want = w3
                 # (verdicts, not texts: the log must not depend on the
                 # interpreter's hash seed - that axis is sub-check (b))
                 log.add("res", ti, canonical(op), r[0], r == want)
@@ -854,7 +947,8 @@ class C14(CheckBase):
                 elif r != want:
                     violations.append({
                         "kind": "concurrent-differs",
-                        "sig": "concurrent-differs:" + op[0],
+                        "sig": during_sig("concurrent-differs:" + op[0], r,
+                                          exp[canonical(op)], want),
                         "detail": f"task {ti} {op} returned "
                                   f"{str(r)[:400]} but run alone it returns "
                                   f"{str(want)[:400]}"})
@@ -863,10 +957,12 @@ class C14(CheckBase):
         with world.as_proc(proc):
             for op in all_ops:
                 r = self.do_op(objs, op, [None])
-                want = exp[canonical(op)]
+                want = (exp3 if wrote_at else exp)[canonical(op)]
                 if r != want:
                     violations.append({
-                        "kind": "residue", "sig": "residue:" + op[0],
+                        "kind": "residue",
+                        "sig": during_sig("residue:" + op[0], r,
+                                          exp[canonical(op)], want),
                         "detail": f"after the concurrent phase {op} returns "
                                   f"{str(r)[:400]}; expected {str(want)[:400]}"})
         for lst, snap in owned_lists:
@@ -1010,9 +1106,11 @@ class C14(CheckBase):
                          "scheduler-aware re-entrant lock)"]},
             "assumptions": [
                 "pre-emption granularity is a source line (not a bytecode)",
-                "files do not change *during* the concurrent phase of a C14 "
-                "run; in the reload-race family one is replaced between a "
-                "first render and that phase",
+                "files change only in the reload-race family: one is "
+                "replaced between a first render and the concurrent phase "
+                "and, in half of those runs, once more during it (then "
+                "operations that began before that instant may serve either "
+                "version, later ones must serve the newest)",
                 "expected values come from the same operation run alone on "
                 "a fresh, separately compiled object graph"],
             "extra": {"ops_executed": st.get("ops", 0)},
